@@ -79,10 +79,24 @@ Proof.
 Qed.
 
 (* ---- the invariant ---- *)
+Definition has_mem (t : tree) (id : N) : Prop := exists m, find (fun m => m_id m =? id) (mems t) = Some m.
+Definition act_ok (t : tree) : Prop := has_mem t (v_active (latest t)).
+
+Lemma has_mem_set t a l id : has_mem t id -> exists m, find (fun m => m_id m =? id) (set_mem t a l) = Some m.
+Proof.
+  unfold has_mem, set_mem. induction (mems t) as [|x r IH]; intros [m H]; cbn [find map] in *; [discriminate|].
+  destruct (N.eqb_spec (m_id x) a) as [E|NE].
+  - cbn [m_id]. destruct (N.eqb_spec a id) as [E2|NE2].
+    + eauto.
+    + destruct (N.eqb_spec (m_id x) id); [lia|]. apply IH. eauto.
+  - destruct (m_id x =? id); [eauto|apply IH; eauto].
+Qed.
+
 Record TInv (t : tree) : Prop := {
   ti_ids : ids_ok t;
   ti_distinct : ~ In (v_active (latest t)) (v_sealed (latest t));
-  ti_ord : Ordered (srcs t)
+  ti_ord : Ordered (srcs t);
+  ti_act : act_ok t             (* the active memtable of the latest version exists in the memtable heap *)
 }.
 
 (* the write discipline: what fjall guarantees about the parameters it passes *)
@@ -141,8 +155,8 @@ Qed.
 
 Theorem tinv_step t o : TInv t -> disciplined t o -> TInv (apply_top t o).
 Proof.
-  intros [OK DI OR] D. pose proof OK as [NE IDS]. destruct (IDS _ (latest_in t NE)) as [La Ls].
-  split; [apply ids_ok_apply, OK| |].
+  intros [OK DI OR AC] D. pose proof OK as [NE IDS]. destruct (IDS _ (latest_in t NE)) as [La Ls].
+  split; [apply ids_ok_apply, OK| | |].
   - (* active id not among the sealed ids *)
     destruct o as [e| |W s|W s ev f|s|g items|W]; cbn [apply_top].
     + exact DI.
@@ -221,6 +235,22 @@ Proof.
       * cbn. split; [intros x y _ []|exact I].
       * inversion D2 as [|? ? E1 E2]; subst. rewrite E1. split; [intros x y []|apply IH, E2].
     + rewrite srcs_maint by exact NE. exact OR.
+  - (* the active memtable exists *)
+    unfold act_ok in *.
+    destruct o as [e| |W s|W s ev f|s|g items|W]; cbn [apply_top].
+    + assert (L : latest (t_append t e) = latest t) by reflexivity. rewrite L. unfold has_mem, t_append. cbn [mems].
+      apply has_mem_set. exact AC.
+    + destruct (mem_of t (v_active (latest t))) as [|e0 l0] eqn:ME; [unfold t_rotate; rewrite ME; exact AC|].
+      destruct (rotate_shape t e0 l0 NE ME) as [SH _]. rewrite SH. cbn [v_active]. unfold t_rotate. rewrite ME. cbn [fst].
+      unfold has_mem. cbn [mems find m_id]. rewrite N.eqb_refl. eauto.
+    + unfold t_flush. destruct (v_sealed (latest t)) eqn:SE; [exact AC|].
+      destruct (gc_stream _ _ _ _); [exact AC|]. cbn [fst].
+      rewrite latest_maint by (cbn; discriminate). unfold has_mem. rewrite mems_maint. exact AC.
+    + unfold t_compact. destruct (v_tables (latest t)); [exact AC|].
+      rewrite latest_maint by (cbn; discriminate). unfold has_mem. rewrite mems_maint. exact AC.
+    + unfold t_clear, latest, has_mem. cbn [vers hd v_active mems find m_id]. rewrite N.eqb_refl. eauto.
+    + exact AC.
+    + rewrite latest_maint by exact NE. unfold has_mem. rewrite mems_maint. exact AC.
 Qed.
 
 Fixpoint run_disciplined (t : tree) (ops : list tree_op) : Prop :=
@@ -237,7 +267,9 @@ Qed.
 
 Lemma tinv_init : TInv tree_init.
 Proof.
-  split; [apply ids_ok_init|cbn; tauto|]. unfold srcs, latest. cbn. repeat split; intros x y []; contradiction.
+  split; [apply ids_ok_init|cbn; tauto| |].
+  - unfold srcs, latest. cbn. repeat split; intros x y []; contradiction.
+  - unfold act_ok, has_mem. cbn. rewrite N.eqb_refl. eauto.
 Qed.
 
 (* for every tree reached from the empty tree by disciplined operations, the point read of every key at every instant
